@@ -68,6 +68,8 @@ func (e *Env) Seed() error {
 		`INSERT INTO toys(id,owner_id,owner_type,name) VALUES (1,1,'pets','toy1'),(2,3,'pets','toy2')`,
 		`INSERT INTO langs(code,name) VALUES ('go','go'),('rs','rs'),('py','py')`,
 		`INSERT INTO user_langs(user_id,lang_code) VALUES (1,'go'),(1,'rs'),(2,'go')`,
+		`INSERT INTO memos(id,name,v) VALUES (1,'m1',0),(2,'m2',0)`,
+		`INSERT INTO drafts(id,name,v) VALUES (1,'d1',0),(2,'d2',0)`,
 	}
 	for _, s := range stmts {
 		if _, err := tx.Exec(s); err != nil {
